@@ -214,12 +214,106 @@ fn bounds_overflow(kind: &str) {
     );
 }
 
+fn jet_rows<J: simplicity::jet::Jet + PartialEq + Copy>(all: &[J]) -> String {
+    use simplicity::{BitIter, BitWriter};
+    let mut rows = vec![];
+    for j in all {
+        let mut v = Vec::new();
+        let n = {
+            let w: &mut dyn std::io::Write = &mut v;
+            let mut bw = BitWriter::new(w);
+            let n = j.encode(&mut bw).unwrap();
+            bw.flush_all().unwrap();
+            n
+        };
+        let code: String = (0..n).map(|i| if v[i / 8] >> (7 - i % 8) & 1 == 1 { '1' } else { '0' }).collect();
+        let mut it = BitIter::from(&v[..]);
+        let back = J::decode(&mut it);
+        let ok = matches!(back, Ok(x) if x == *j) && it.n_total_read() == n;
+        let parses = matches!(J::parse(&j.to_string()), Ok(x) if x == *j);
+        rows.push(format!(
+            "{{\"name\":\"{}\",\"code\":\"{}\",\"decodes_back\":{},\"parses_back\":{}}}",
+            j, code, ok, parses
+        ));
+    }
+    format!("[{}]", rows.join(","))
+}
+
+fn jets() {
+    use simplicity::jet::{Bitcoin, Core, Elements};
+    println!(
+        "{{\"Core\":{},\"Elements\":{},\"Bitcoin\":{}}}",
+        jet_rows(&Core::ALL),
+        jet_rows(&Elements::ALL),
+        jet_rows(&Bitcoin::ALL)
+    );
+}
+
+fn jet_decode_in<J: simplicity::jet::Jet>(bits: &str) {
+    use simplicity::{BitIter, BitWriter};
+    let mut bytes = vec![0u8; (bits.len() + 7) / 8];
+    for (i, c) in bits.chars().enumerate() {
+        if c == '1' {
+            bytes[i / 8] |= 1 << (7 - i % 8);
+        }
+    }
+    // exactly bits.len() bits: wrap the byte iterator's bits with take()
+    let mut it = BitIter::from(&bytes[..]);
+    match J::decode(&mut it) {
+        Ok(j) => {
+            let mut v = Vec::new();
+            let n = {
+                let w: &mut dyn std::io::Write = &mut v;
+                let mut bw = BitWriter::new(w);
+                let n = j.encode(&mut bw).unwrap();
+                bw.flush_all().unwrap();
+                n
+            };
+            let code: String = (0..n).map(|i| if v[i / 8] >> (7 - i % 8) & 1 == 1 { '1' } else { '0' }).collect();
+            println!(
+                "{{\"result\":\"ok\",\"jet\":\"{}\",\"consumed\":{},\"consumed_bits\":\"{}\",\"reencoded\":\"{}\"}}",
+                j,
+                it.n_total_read(),
+                &bits[..it.n_total_read().min(bits.len())],
+                code
+            );
+        }
+        Err(e) => println!(
+            "{{\"result\":\"{}\",\"consumed\":{},\"input\":\"{}\"}}",
+            match e {
+                simplicity::decode::Error::EndOfStream => "EndOfStream",
+                simplicity::decode::Error::InvalidJet => "InvalidJet",
+                _ => "other",
+            },
+            it.n_total_read(),
+            bits
+        ),
+    }
+}
+
+fn jet_check_in<J: simplicity::jet::Jet + PartialEq + Copy>(all: &[J], name: &str) {
+    let j = all.iter().find(|j| j.to_string() == name).expect("jet name");
+    let row = jet_rows(std::slice::from_ref(j));
+    println!("{}", &row[1..row.len() - 1]);
+}
+
 fn main() {
     let args: Vec<String> = std::env::args().skip(1).collect();
     match args[0].as_str() {
         "budget" => budget(&args[1..]),
         "convert" => convert(&args[1..]),
         "peaks" => peaks(),
+        "jets" => jets(),
+        "jet_decode" => match args[1].as_str() {
+            "Core" => jet_decode_in::<simplicity::jet::Core>(&args[2]),
+            "Elements" => jet_decode_in::<simplicity::jet::Elements>(&args[2]),
+            _ => jet_decode_in::<simplicity::jet::Bitcoin>(&args[2]),
+        },
+        "jet_check" => match args[1].as_str() {
+            "Core" => jet_check_in(&simplicity::jet::Core::ALL, &args[2]),
+            "Elements" => jet_check_in(&simplicity::jet::Elements::ALL, &args[2]),
+            _ => jet_check_in(&simplicity::jet::Bitcoin::ALL, &args[2]),
+        },
         "bounds_overflow" => bounds_overflow(&args[1]),
         _ => {
             eprintln!("usage: vreplay budget <cost> <item sizes..> | convert c1 c2 w1 w2 wu");
